@@ -60,6 +60,8 @@ def _lib(ctx, name, p):
         return lambda x, y: 3 * x * x + 2 * a * x + b
     if name == 'ode_xpow':     # y' = x^(8a+2b): a polynomial right-hand side of high degree (10..30)
         return lambda x, y: x ** (8 * a + 2 * b)
+    if name == 'ode_bigosc':   # a huge constant component next to a fast oscillator: y0' = 0, y1' = -w y2, y2' = w y1, w = 4(a+1)
+        return lambda x, y: [0 * y[0], -(4 * (a + 1)) * y[2], (4 * (a + 1)) * y[1]]
     if name == 'ode_tri':      # triangular linear system y0' = -a y0 + b y1, y1' = -(a+1) y1
         return lambda x, y: [-a * y[0] + b * y[1], -(a + 1) * y[1]]
     if name == 'lap_exp':      # 1/(p+a)
